@@ -1029,9 +1029,10 @@ class Interp:
                 raise Unknown('%s on a range the interpreter does not follow' % sn)
             m.fill(a[1], self.rng(a, b), VINIT if v == ('vinitval',) else VAL, sn == 'fill', '%s(%s, %s)' % (sn, fmt(a[1]), fmt(b[1])))
             return TOP
-        if sn in ('uninitialized_value_construct_n', 'uninitialized_default_construct_n') and len(args) == 2:
+        if sn in ('uninitialized_value_construct_n', 'uninitialized_default_construct_n') and len(args) >= 2 and all((a.get('defarg') if isinstance(a, dict) else False) for a in args[2:]):
+            # (the pre-C++17 emulations carry a defaulted enable_if parameter)
             self.no_probe(sn)
-            t, cnt = [self.ev(a, fr) for a in args]
+            t, cnt = [self.ev(a, fr) for a in args[:2]]
             if t[0] != 'ptr' or cnt[0] != 'int':
                 raise Unknown('%s on a range the interpreter does not follow' % sn)
             m.fill(t[1], cnt[1], VINIT, False, '%s(%s, %s)' % (sn, fmt(t[1]), fmt(cnt[1])))
